@@ -247,6 +247,11 @@ def r3(ctx):
             for pattern in ((False, False), (True, False), (False, True), (True, True)):
                 ex = Explorer(f)
                 outs = ex.run(first[0], {svar: tuple(server(b) for b in pattern)}, stop=lambda n: n in sleeps)
+                # (outcomes that leave the loop through the deadline -- they run the statements after the loop, the forced
+                # stop -- are the time-out, not a decision about the pools)
+                post = set(n.id for n in g.nodes if n.ast is not None and n.kind in ("stmt", "for", "test", "with") and getattr(n.ast, "_ord", 0) > max(getattr(x, "_ord", 0) for x in ast.walk(w) if isinstance(x, (ast.stmt, ast.expr)))
+                           and not any(a is w for a in f.module.ancestors(n.ast)))
+                outs = [o for o in outs if not any(n.id in post for n in o.path)]
                 got = set("stop-draining" if o.kind == "return" else ("keep-draining" if o.kind == "stop" else o.kind) for o in outs)
                 want = "keep-draining" if any(pattern) else "stop-draining"
                 ctx.check("C04.R3", got == {want}, key(f, "gevent-drain|%s" % (pattern,)), site(f, text="listeners busy=%s" % (pattern,)),
